@@ -92,6 +92,11 @@ func (p *Proxy) ServeHTTP(w http.ResponseWriter, proxyReq *http.Request) {
 			return
 		}
 	} else {
+		// The origin may answer before it has read the whole request body (an upload refused with an error
+		// document). By default the HTTP server then stops the handler's reads of the request body as soon as
+		// the response is being written: the upstream client that is still forwarding the body fails and drops
+		// the upstream connection while its response is being relayed. Let both directions run side by side.
+		http.NewResponseController(w).EnableFullDuplex()
 		if err := p.handleHTTP(r, proxyReq); err != nil {
 			slog.Error("Error handling HTTP request", "error", err)
 			if errors.Is(err, ErrClientResponseFailed) {
